@@ -43,6 +43,8 @@ type kit struct {
 	install func(v int) (exported.ClientState, exported.ConsensusState)
 	// next returns a valid header extending the stored client state
 	next func(cs exported.ClientState) exported.Header
+	// nextCtx (optional) may consult the client store of the given context (BSC: the recent signers)
+	nextCtx func(ctx sdk.Context, cs exported.ClientState) exported.Header
 	// proof returns (height, proof, value) of a genuine statement provable at the installed height of variant v
 	proof func(v int) (exported.Height, []byte, []byte)
 	// delayByTime: the delay is wall time (tendermint); otherwise confirmation blocks (one update)
@@ -90,29 +92,55 @@ func getFx() *fixtures {
 		},
 		delayByTime: true,
 	}
+	// BSC: three validators (a validator may not seal two blocks in a row), sealers chosen from the store's recent signers
+	bscSet := []int{0, 1, 2}
 	bscGen := func(v int) *bsctypes.Header {
-		list := []int{0}
+		list := bscSet
 		if v == 1 {
-			list = []int{0, 1} // the later install announces a changed validator set: it (not the current set) must become the pending one
+			list = []int{0, 1, 3} // the later install announces a changed validator set: it (not the current set) must become the pending one
 		}
-		return c09.Build(c09.Spec{Number: uint64(400 + 2*v), Signer: 0, Coinbase: -1, Diff: 2, List: list, Root: f.evmRoot})
+		return c09.Build(c09.Spec{Number: uint64(400 + 2*v), Signer: 0, Coinbase: -1, Diff: 1, List: list, Root: f.evmRoot})
+	}
+	bscNext := func(ctx sdk.Context, cs exported.ClientState) exported.Header {
+		b := cs.(*bsctypes.ClientState)
+		parent := b.Header
+		n := parent.Height.RevisionHeight + 1
+		recent := map[int]bool{}
+		if signers, err := bsctypes.GetRecentSigners(h.C.App.XIBCKeeper.ClientKeeper.ClientStore(ctx, Name)); err == nil {
+			for _, sg := range signers {
+				if sg.Height.RevisionHeight+uint64(len(b.Validators)/2) >= n {
+					recent[c09.IndexOf(sg.Validator)] = true
+				}
+			}
+		}
+		var cur []int
+		for _, a := range b.Validators {
+			cur = append(cur, c09.IndexOf(a))
+		}
+		var list []int
+		if n%b.Epoch == 0 {
+			list = cur
+		}
+		for pos, idx := range cur {
+			if idx < 0 || recent[idx] {
+				continue
+			}
+			diff := int64(1)
+			if uint64(pos) == n%uint64(len(cur)) {
+				diff = 2
+			}
+			return c09.Build(c09.Spec{Parent: &parent, Number: n, Signer: idx, Coinbase: -1, Diff: diff, List: list})
+		}
+		return nil
 	}
 	f.kits["bsc"] = kit{
 		install: func(v int) (exported.ClientState, exported.ConsensusState) {
 			g := bscGen(v)
-			cs := bsctypes.NewClientState(*g, c09.ChainID, 2, 3, [][]byte{g.Coinbase}, c08.ContractAddress(), 1_000_000_000)
+			cs := bsctypes.NewClientState(*g, c09.ChainID, 2, 3, c09.SortedAddrs(bscSet), c08.ContractAddress(), 1_000_000_000)
 			return cs, &bsctypes.ConsensusState{Timestamp: g.Time, Height: g.Height, Root: g.Root}
 		},
-		next: func(cs exported.ClientState) exported.Header {
-			b := cs.(*bsctypes.ClientState)
-			parent := b.Header
-			n := parent.Height.RevisionHeight + 1
-			var list []int
-			if n%b.Epoch == 0 {
-				list = []int{0}
-			}
-			return c09.Build(c09.Spec{Parent: &parent, Number: n, Signer: 0, Coinbase: -1, Diff: 2, List: list})
-		},
+		next:    func(cs exported.ClientState) exported.Header { return bscNext(h.Ctx(cp.TimeOf(7)), cs) },
+		nextCtx: bscNext,
 		proof: func(v int) (exported.Height, []byte, []byte) {
 			return clienttypes.NewHeight(0, uint64(400+2*v)), f.evmPrf, f.evmVal
 		},
@@ -358,7 +386,7 @@ func (s *sys) Apply(op string) (obs, class string, viols []bfs.Viol) {
 			return "no client", "update without client", nil
 		}
 		cs, _ := k.GetClientState(s.ctx, Name)
-		hdr := s.f.kits[s.typ].next(cs)
+		hdr := s.nextHeader(s.ctx, s.typ, cs)
 		if hdr == nil {
 			return "no header", "update: no further header in the fixture", nil
 		}
@@ -455,13 +483,21 @@ func (s *sys) probeProof(op, action, t string, variant int, add func(sig, d stri
 	if kt.delayByTime {
 		later = later.WithBlockTime(s.now.Add(11 * time.Second))
 	} else {
-		cs, _ := s.f.h.C.App.XIBCKeeper.ClientKeeper.GetClientState(later, Name)
-		hdr := kt.next(cs)
-		if hdr == nil {
-			return
+		// as many valid updates as the client type asks confirmation blocks for
+		cs0, _ := s.f.h.C.App.XIBCKeeper.ClientKeeper.GetClientState(later, Name)
+		need := cs0.GetDelayBlock()
+		if need == 0 {
+			need = 1
 		}
-		if err := s.msgUpdate(later, hdr, s.f.relayer, true); err != nil {
-			return // reported by probeUpdate
+		for i := uint64(0); i < need; i++ {
+			cs, _ := s.f.h.C.App.XIBCKeeper.ClientKeeper.GetClientState(later, Name)
+			hdr := s.nextHeader(later, t, cs)
+			if hdr == nil {
+				return
+			}
+			if err := s.msgUpdate(later, hdr, s.f.relayer, true); err != nil {
+				return // reported by probeUpdate
+			}
 		}
 	}
 	if err := s.verify(later, t, variant); err != nil {
@@ -494,17 +530,35 @@ func (s *sys) probeInit(op, action, t string, cs exported.ClientState, cons expo
 			miss = append(miss, fmt.Sprintf("%q = %x, fresh creation writes %x", key, hv, v))
 		}
 	}
+	// the other direction for records that describe the client as a whole rather than a stored height: an upgrade replaces
+	// them, so nothing but what a fresh creation writes may remain (BSC: recent signers, pending validators)
+	freshDump := s.dump(fresh)
+	for key := range have {
+		if strings.HasPrefix(key, "recentSingers") || strings.HasPrefix(key, "pendingValidators") {
+			if _, ok := freshDump[key]; !ok {
+				miss = append(miss, fmt.Sprintf("%q left over from the replaced client", key))
+			}
+		}
+	}
 	if len(miss) > 0 {
 		sort.Strings(miss)
 		add("installed-client-not-initialised-like-a-fresh-one/"+action+"/"+t, fmt.Sprintf("%s: %s", op, strings.Join(miss, "; ")))
 	}
 }
 
-func (s *sys) probeUpdate(op, action, t string, add func(sig, d string)) {
+// nextHeader asks the kit for a valid header extending the stored client (store-aware where the kit supports it).
+func (s *sys) nextHeader(ctx sdk.Context, t string, cs exported.ClientState) exported.Header {
 	kt := s.f.kits[t]
+	if kt.nextCtx != nil {
+		return kt.nextCtx(ctx, cs)
+	}
+	return kt.next(cs)
+}
+
+func (s *sys) probeUpdate(op, action, t string, add func(sig, d string)) {
 	fork := c07.Fork(s.ctx, s.now)
 	cs, _ := s.f.h.C.App.XIBCKeeper.ClientKeeper.GetClientState(fork, Name)
-	hdr := kt.next(cs)
+	hdr := s.nextHeader(fork, t, cs)
 	if hdr == nil {
 		return
 	}
